@@ -15,13 +15,12 @@ class Inconclusive(Exception):
 class RadarSession:
     def __init__(self, binpath, plan, lat=52.0, lon=4.0, opts=(), rows=50, cols=150, scratch=None, listen=True, accept_timeout=25.0, env_extra=None):
         self.scratch = tempfile.mkdtemp(prefix="radar-", dir=scratch)
-        self.srv = procs.FeedServer(plan, accept_timeout=accept_timeout)
+        self.srv = procs.FeedServer(plan, accept_timeout=accept_timeout, listen=listen)
+        port = self.srv.port
         if listen:
             self.srv.start()
-            port = self.srv.port
-        else:
-            port = self.srv.port
-            self.srv.sock.close()  # nothing listens: radar stays in "Waiting for connection"
+        # else: nothing listens (the port is bound, so it cannot be handed to another server of this
+        # run): radar stays in "Waiting for connection"
         argv = [os.path.join(binpath, "radar"), "--port", str(port), f"--lat={lat}", f"--long={lon}", "--log-folder", os.path.join(self.scratch, "logs")] + list(opts)
         self.argv = argv
         # every fourth radar session runs with logging switched on (RUST_LOG=trace): the arguments of
@@ -139,8 +138,10 @@ class RadarSession:
         return rows
 
     def close(self):
-        self.srv.shutdown()
+        # the client first: a client with --retry-tcp that outlives its server would knock on a port
+        # that may by then belong to another session's server
         self.p.kill()
+        self.srv.shutdown()
         shutil.rmtree(self.scratch, ignore_errors=True)
 
 
